@@ -104,7 +104,7 @@ def rowdecEval (args : List String) : String :=
 
 def datumTag : Option Spec.Datum → String
   | none => "null" | some (.fixed _) => "fixed" | some (.short _) => "short" | some (.long _) => "long"
-  | some (.compressed _) => "comp" | some (.external _) => "ext" | some (.cstr _) => "cstr"
+  | some (.compressed (.pglz _)) => "comp-pglz" | some (.compressed (.lz4 _)) => "comp-lz4" | some (.external _) => "ext" | some (.cstr _) => "cstr"
 
 def rowTags (cols : List Spec.Col) (mcols : List Model.Column) (r : Spec.RowV) : List String :=
   let stored := r.vals.take r.natts
@@ -260,23 +260,47 @@ def varlenaEval (args : List String) : String :=
   | [data] => showM showVarlena (Model.readVarlena (unhex data))
   | _ => "bad-args"
 
+/-- deterministic prefix of `varlena`: inline-compressed values (fixes/rows/09).  0 = the witness of the former finding
+A02-inline-compressed (100 × 'a': 36000000 64000000 02610f0151), then the pglz tag forms at their limits (2-byte tag with
+length 3 and 17, 3-byte tag with length 18 and 273, offset 4095, overlapping copy, a full group of 8 items and a ninth),
+then LZ4 (plain token, literal-length and match-length extension bytes, offset ≥ 256, empty last literals) -/
+def varlenaFixed : List Spec.Comp :=
+  let lits (n : Nat) : List Spec.Pglz.Tok := (List.range n).map fun i => .lit (UInt8.ofNat (48 + i % 64))
+  [ .pglz [.lit 97, .mat 1 99],
+    .pglz [.lit 97, .lit 98, .mat 2 3],
+    .pglz [.lit 97, .lit 98, .mat 2 17],
+    .pglz [.lit 97, .mat 1 18],
+    .pglz [.lit 97, .mat 1 273],
+    .pglz [.lit 97, .lit 98, .lit 99, .mat 3 273, .mat 276 20],
+    .pglz (lits 9 ++ [.mat 9 9]),
+    .pglz (lits 40 ++ [.mat 1 273, .mat 1 273, .mat 1 273, .mat 1 273, .mat 1 273, .mat 1 273, .mat 1 273, .mat 1 273,
+                       .mat 1 273, .mat 1 273, .mat 1 273, .mat 1 273, .mat 1 273, .mat 1 273, .mat 1 273, .mat 4095 30, .lit 0]),
+    .lz4 ⟨[⟨[97], 1, 9⟩], [98, 99]⟩,
+    .lz4 ⟨[⟨[97], 1, 4⟩], []⟩,
+    .lz4 ⟨[⟨(List.range 15).map (fun i => UInt8.ofNat (65 + i)), 15, 19⟩], [120]⟩,
+    .lz4 ⟨[⟨(List.range 300).map (fun i => UInt8.ofNat (i % 251)), 300, 600⟩, ⟨[], 257, 4⟩], [1, 2, 3, 4, 5]⟩ ]
+
 def varlenaGen (seed idx _size : Nat) : Case :=
   let c : Spec.Col := ⟨[], 25, -1, 4⟩
   let (d, rest) : Spec.Datum × Bytes :=
+    match varlenaFixed[idx]? with
+    | some z => (.compressed z, if idx % 2 = 0 then [] else [0, 0, 7])
+    | none =>
     (do let d ← Gen.genDatum c
         let rest ← Gen.bytes (← Gen.oneOf [0, 0, 1, 5, 30])
         return (d, rest)).run' (Prng.ofSeed seed idx)
   let enc := match d with
     | .long p => le 4 ((p.length + 4) * 4) ++ p
-    | .compressed raw => le 4 ((raw.length + 4) * 4 + 2) ++ raw
+    | .compressed z => le 4 ((z.stored.length + 4) * 4 + 2) ++ z.stored
     | d => Spec.formDatum c 0 d
   let spec := match d with
-    | .short p | .long p | .compressed p => s!"b{hexOf p}|{enc.length}"
+    | .short p | .long p => s!"b{hexOf p}|{enc.length}"
+    | .compressed z => s!"b{hexOf z.original}|{enc.length}"
     | _ => s!"~|{enc.length}"
   { tags := ["form=" ++ datumTag (some d), "nt"], model := showM showVarlena (Model.readVarlena (enc ++ rest)), spec,
     args := [hexRle (enc ++ rest)] }
 
-def varlena : Family := { name := "varlena", gen := varlenaGen, eval := varlenaEval }
+def varlena : Family := { name := "varlena", gen := varlenaGen, eval := varlenaEval, fixed := varlenaFixed.length }
 
 /-! ### rowfile / rowviews: heap files of row versions -/
 
@@ -463,10 +487,58 @@ def rowrawGen (seed idx size : Nat) : Case :=
 
 def rowraw : Family := { name := "rowraw", gen := rowrawGen, eval := rowdecEval }
 
-/-- varlenaraw: ReadVarlena on arbitrary and near-valid bytes, full result compared (spec silent) -/
+/-- an inline-compressed varlena with a damaged stream / hostile va_tcinfo: bit flips and byte sets anywhere, the raw
+size off by one / 0 / 2^30−1, method 2 and 3, a truncated or extended stream with the header length adjusted or not -/
+def genDamagedComp : Gen Bytes := do
+  let z ← Gen.genComp
+  let stream := z.stream
+  let tc ← match ← Gen.below 8 with
+    | 0 => pure (z.tcinfo + 1)
+    | 1 => pure (z.tcinfo - 1)
+    | 2 => pure (z.tcinfo % 2 ^ 30 + 2 ^ 31)
+    | 3 => pure (z.tcinfo % 2 ^ 30 + 3 * 2 ^ 30)
+    | 4 => Gen.oneOf [0, 1, 2 ^ 30 - 1, 2 ^ 30, 2 ^ 32 - 1]
+    | 5 => pure ((z.tcinfo + 2 ^ 30) % 2 ^ 31)        -- the other method
+    | _ => pure z.tcinfo
+  let stream ← match ← Gen.below 5 with
+    | 0 => pure (stream.take (← Gen.range 0 stream.length))
+    | 1 => do return stream ++ (← Gen.bytes (← Gen.range 1 6))
+    | 2 => Gen.mutate [] 1 stream
+    | 3 => Gen.mutate [] 3 stream
+    | _ => pure stream
+  let body := le 4 (tc % 2 ^ 32) ++ stream
+  let total ← match ← Gen.below 6 with
+    | 0 => Gen.oneOf [4, 5, 7, 8, 9, body.length + 3, body.length + 5]
+    | _ => pure (body.length + 4)
+  return le 4 (total * 4 + 2) ++ body ++ (← Gen.bytes (← Gen.oneOf [0, 0, 3]))
+
+/-- deterministic prefix of `varlenaraw`: the former A02 witness (100 × 'a') intact and damaged — raw size 99 / 101,
+method 2 / 3 / LZ4 on a pglz stream, stream cut to 3 bytes (below decompressPGLZ's minimum) and to 4, match offset
+before the start of the output, total length 8 (no stream) and 7 (no room for va_tcinfo) -/
+def varlenarawFixed : List Bytes :=
+  [ [0x36, 0, 0, 0, 100, 0, 0, 0, 2, 97, 0x0f, 1, 0x51],
+    [0x36, 0, 0, 0, 99, 0, 0, 0, 2, 97, 0x0f, 1, 0x51],
+    [0x36, 0, 0, 0, 101, 0, 0, 0, 2, 97, 0x0f, 1, 0x51],
+    [0x36, 0, 0, 0, 100, 0, 0, 0x80, 2, 97, 0x0f, 1, 0x51],
+    [0x36, 0, 0, 0, 100, 0, 0, 0xc0, 2, 97, 0x0f, 1, 0x51],
+    [0x36, 0, 0, 0, 100, 0, 0, 0x40, 2, 97, 0x0f, 1, 0x51],
+    [0x2e, 0, 0, 0, 100, 0, 0, 0, 2, 97, 0x0f],
+    [0x32, 0, 0, 0, 100, 0, 0, 0, 2, 97, 0x0f, 1],
+    [0x36, 0, 0, 0, 100, 0, 0, 0, 2, 97, 0x0f, 2, 0x51],
+    [0x22, 0, 0, 0, 0, 0, 0, 0],
+    [0x1e, 0, 0, 0, 0, 0, 0, 0],
+    [0x36, 0, 0, 0, 100, 0, 0, 0, 2, 97, 0x0f, 1],
+    [0x32, 0, 0, 0, 12, 0, 0, 0x40, 0x1f, 97, 1, 0, 0, 98],
+    [0x22, 0, 0, 0, 0, 0, 0, 0x40] ]
+
+/-- varlenaraw: ReadVarlena on arbitrary and near-valid bytes (incl. inline-compressed values with damaged streams), full result compared (spec silent) -/
 def varlenarawGen (seed idx _size : Nat) : Case :=
   let data : Bytes :=
-    (do match ← Gen.below 4 with
+    match varlenarawFixed[idx]? with
+    | some d => d
+    | none =>
+    (do match ← Gen.below 5 with
+        | 4 => genDamagedComp
         | 0 => Gen.bytes (← Gen.range 0 24)
         | 1 => do
           let hdr ← Gen.oneOf [0, 1, 2, 3, 4, 5, 0x12, 0x40, 0x41, 0x80, 0x81, 0xfe, 0xff, 7, 9]
@@ -475,12 +547,12 @@ def varlenarawGen (seed idx _size : Nat) : Case :=
           let d ← Gen.genDatum ⟨[], 25, -1, 4⟩
           let enc := match d with
             | .long p => le 4 ((p.length + 4) * 4) ++ p
-            | .compressed raw => le 4 ((raw.length + 4) * 4 + 2) ++ raw
+            | .compressed z => le 4 ((z.stored.length + 4) * 4 + 2) ++ z.stored
             | d => Spec.formDatum ⟨[], 25, -1, 4⟩ 0 d
           Gen.mutate [(0, 1), (0, 4), (1, 1)] 2 enc).run' (Prng.ofSeed seed idx)
   { tags := ["nt"], model := showM showVarlena (Model.readVarlena data), spec := "-", args := [hexRle data] }
 
-def varlenaraw : Family := { name := "varlenaraw", gen := varlenarawGen, eval := varlenaEval }
+def varlenaraw : Family := { name := "varlenaraw", gen := varlenarawGen, eval := varlenaEval, fixed := varlenarawFixed.length }
 
 def filemutModel (mcols : List Model.Column) (file : Bytes) : String :=
   let all := [okOrPanicR (Model.readRows dec file mcols false), okOrPanicR (Model.readRows dec file mcols true),
